@@ -33,6 +33,15 @@ def run(ctx):
     r2_other_wait_loops(chk, fx, TC.ssh_pump(fx))
     r3_propagation(chk, fx)
     r4_session_recv(chk, fx)
+    r5_no_self_deadlock(chk, fx)
+
+
+def r5_no_self_deadlock(chk, fx):
+    """A caller learns of the failure only if the call it is in can come back: rpc() / recv() never wait for a lock the same task
+    already holds (directly or through a helper it awaits), and the session's locks are taken in one order.  Shared with C05 (R4/R5)."""
+    from .c15 import _Rename
+    from . import c05
+    c05.r4_r5_locks(_Rename(chk, "C05/R", "C07/R5:C05/R"), fx)
 
 
 def zero_edges(b, count_locals):
@@ -253,7 +262,30 @@ def r2_pump(chk, fx, b):
             chk.instance("C07/R2", "ssh pump: %s leaves the pump loop" % what, b.name, loc_of(s.get("sp")), holds=not again,
                          key="C07/R2 %s %s stays-in-loop" % (fn, what.split(" (")[0]),
                          detail="the closed source is polled again immediately: busy loop, receive queue never closed" if again else None)
-    chk.floor("C07/R2 pump exhaustion outcomes", n, 3)
+    # tokio::select! with a refutable branch pattern (`Some(msg) = channel.wait() => ..`): when the future yields None the branch is
+    # only *disabled* and the pump goes on serving its other source — the receive queue is never closed and pending recv() calls hang.
+    # In the expansion the pattern is tested inside the poll_fn closure (`match &out { <pat> => {}, _ => continue }`): a read of the
+    # discriminant of an Option<ChannelMsg> there is such a test.
+    n_sel = 0
+    for cname, cb in sorted(fx.mir.items()):
+        if not cname.startswith(b.name + "::{closure#"):
+            continue
+        n_sel += 1
+        for bi, bl in enumerate(cb.blocks):
+            if bl.get("cleanup"):
+                continue
+            for s in bl["stmts"]:
+                if s["k"] == "assign" and s["rv"]["k"] == "discr":
+                    pl = s["rv"]["pl"]
+                    ty = cb.local_ty(pl["l"]).lstrip("&").replace("mut ", "").strip()
+                    if ty == "std::option::Option<russh::ChannelMsg>" and not [x for x in (pl.get("p") or []) if x != "*"]:
+                        n += 1
+                        chk.instance("C07/R2", "ssh pump: the outcome `channel closed` of channel.wait() reaches its handler (select! branch pattern is irrefutable)",
+                                     cname, loc_of(s.get("sp")), holds=False, key="C07/R2 %s channel.wait() == None disabled-by-select-pattern" % fn,
+                                     detail="a None from the closed channel disables the branch; the pump keeps waiting on the send queue and the receive queue is never closed")
+    chk.extra["pump_select_closures"] = n_sel
+    if not any(r.get("key", "").endswith("disabled-by-select-pattern") for r in chk.reports):
+        chk.floor("C07/R2 pump exhaustion outcomes", n, 3)
     # R4: the queue sender is not cloned / leaked
     for c in b.calls():
         if c.macro:
